@@ -123,7 +123,7 @@ func GenC19(t *rapid.T) *C19Case {
 	}
 	calls := rapid.SliceOfN(rapid.Custom(func(t *rapid.T) FluentCall {
 		return FluentCall{Name: names[drawIdx(t, len(names), "m")], A: genRaw(t), B: genRaw(t), V: genValSpec(t, 2)}
-	}), 1, 20).Draw(t, "calls")
+	}), drawInt(t, 1, 12, "mincalls"), 20).Draw(t, "calls")
 	c.Calls = calls
 	return c
 }
